@@ -557,6 +557,50 @@ def r14_optional_library_used_and_options_forwarded(idx, r):
     pairing_rule(idx, r, ["armi.nuclearDataIO.xsCollections", "armi.nuclearDataIO.xsLibraries", "armi.nuclearDataIO.xsNuclides", "armi.nuclearDataIO.nuclearFileMetadata"], 30)
 
 
+def r15_removal_guard_and_loop_carried_defaults(idx, r):
+    """(a) removal = absorption - (n,2n) + out-scatter whatever options the creator was given: every plain assignment to `macros.removal`
+    contains the n2n term (an option-specific shortcut that assigns the absorption alone drops it).  (b) IsotxsLibrary.__setitem__ stores the
+    nuclide only after the base class accepted the label (duplicate labels are refused there): the refusal comes before the store.
+    (c) a default that depends on the loop element (`nucNames = block.getNuclides()` when none were given) is worked out per element, not
+    kept in the parameter: re-binding a parameter inside the loop carries the first element's answer to all later ones."""
+    f = idx.method("armi.nuclearDataIO.xsCollections.MacroscopicCrossSectionCreator", "_computeRemovalXS")
+    sts = [s_ for s_ in iter_stores(f.node) if s_.chain == "self.macros.removal" and s_.kind == "assign"]
+    if not sts:
+        raise AnchorMissing("_computeRemovalXS: assignment of macros.removal")
+    for s_ in sts:
+        txt = norm(s_.value)
+        r.require("self.macros.absorption" in txt and "self.macros.n2n" in txt and any(isinstance(x, ast.BinOp) and isinstance(x.op, ast.Sub) for x in ast.walk(s_.value)), "removal:absorption-minus-n2n-on-every-path", f, node=s_.stmt,
+                  msg=f"`{norm(s_.stmt)[:80]}` sets the removal cross section without subtracting (n,2n): with that option the removal is too large by the n2n cross section")
+    fl = Flow(f.node, lambda nd: ["out"] if isinstance(nd, ast.AugAssign) and norm(nd.target) == "self.macros.removal" and isinstance(nd.op, ast.Add) else []).run()
+    r.require(not fl.must_at_normal_exits("out"), "removal:out-scatter-added-on-every-path", f, msg="a path returns before the out-scatter (column sum minus diagonal) was added to the removal cross section")
+    lib = idx.cls("armi.nuclearDataIO.xsLibraries._XSLibrary")
+    n = 0
+    for c in idx.subclasses(lib):
+        g = c.methods.get("__setitem__")
+        if g is None:
+            continue
+        fl = Flow(g.node, lambda nd: ["accepted"] if isinstance(nd, ast.Call) and call_attr(nd) == "__setitem__" and ("_XSLibrary" in norm(nd.func) or "super()" in norm(nd.func)) else []).run()
+        for s_ in iter_stores(g.node):
+            if s_.kind == "subscript" and norm(s_.node.value).startswith("self."):
+                n += 1
+                st = fl.state_before(s_.stmt) or {}
+                r.require(st.get("accepted", (0, 0))[0] >= 1, f"{c.name}.__setitem__:label-accepted-before-the-store", g, node=s_.stmt,
+                          msg=f"`{norm(s_.stmt)}` happens before the base class has accepted the label: a refused duplicate assignment (AttributeError) has already replaced the stored nuclide")
+    if n < 1:
+        raise AnchorMissing("a library __setitem__ that stores after the base-class guard")
+    k = 0
+    for g in idx.module("armi.nuclearDataIO.xsCollections").all_funcs():
+        ps = set(g.params())
+        for lp in [x for x in walk_local(g.node) if isinstance(x, ast.For)]:
+            lv = {y.id for y in ast.walk(lp.target) if isinstance(y, ast.Name)}
+            k += 1
+            for st_ in [x for b_ in lp.body for x in ast.walk(b_) if isinstance(x, ast.Assign)]:
+                for t in st_.targets:
+                    if isinstance(t, ast.Name) and t.id in ps and lv & {y.id for y in ast.walk(st_.value) if isinstance(y, ast.Name)}:
+                        r.violate(f"{g.qualname}:{t.id}:default-per-element", g, f"`{norm(st_)[:70]}` re-binds the parameter `{t.id}` to a value taken from the current loop element: every later element is processed with the first element's value", node=st_)
+    r.ok("loops-scanned", "armi/nuclearDataIO/xsCollections.py", msg=f"{k} loops")
+
+
 def run(idx, chk):
     chk.explanation = (
         "C10: metadata/collection merges never write into their inputs and raise on conflicts; direct stores into the target library happen only "
@@ -591,3 +635,5 @@ def run(idx, chk):
                  necessary="conflicting data are refused whatever their values; macroscopic sums are the density-weighted sums of the micros for every composition")
     chk.run_rule("R10.14", "an optional library/weight that is tested for presence is used in that branch; sibling calls forward the library type", lambda r: r14_optional_library_used_and_options_forwarded(idx, r), floor=3,
                  necessary="macroscopic constants are the density-weighted sums over the libraries the caller named, for the kind of data the caller named")
+    chk.run_rule("R10.15", "removal always subtracts n2n and adds out-scatter; a library stores a nuclide after the label was accepted; per-element defaults are not kept in a parameter", lambda r: r15_removal_guard_and_loop_carried_defaults(idx, r), floor=4,
+                 necessary="macroscopic constants are the density-weighted sums over the block's own nuclides; a refused assignment leaves the library unchanged")
